@@ -1,9 +1,31 @@
-"""C03 -- system-level check (see csys.py)."""
+"""C03 -- a restart loses no assignment and resurrects none: system check + start-up wiring facts from main.go."""
+import json
+import os
+import shutil
 import csys
+import c16
+import vlib
 
 
 def run(res, tier, seed):
     csys.run(res, tier, seed, "C03")
+    ok, out = c16.translator_build()
+    ok2, out2, dt = c16.run_translator() if ok else (False, out, 0)
+    res.obligation("start-up facts regenerated from /repo's main.go (order of listing, construction, informer start, Run)", ok and ok2)
+    if not (ok and ok2):
+        res.violation({"property": "C03", "kind": "proof-break", "theorem_or_correspondence": "translator", "detail": (out + str(out2))[-2000:]}, nofail=True)
+        return
+    shutil.copy(os.path.join(vlib.COQ, "Properties", "C03_current.v.tmpl"), os.path.join(c16.GEN, "C03_current.v"))
+    with vlib.Lock("coq.lock"):
+        rc1, o1, _ = vlib.sh("timeout 600 coqc -Q .. NIPAM -R . Gen Facts_startup.v 2>&1", cwd=c16.GEN, timeout=700, check=False)
+        rc2, o2, _ = vlib.sh("timeout 600 coqc -Q .. NIPAM -R . Gen C03_current.v 2>&1", cwd=c16.GEN, timeout=700, check=False) if rc1 == 0 else (1, o1, 0)
+    res.obligation("theorem current_startup_ok : startup_ok startup = true (nodes listed before construction, that list passed to the constructor, informers started after, Run last)", rc2 == 0)
+    txt = open(os.path.join(c16.GEN, "Facts_startup.v")).read()
+    res.coverage["startup_facts"] = [l for l in txt.splitlines() if l.startswith("Definition")]
+    if rc2 != 0:
+        res.violation({"property": "C03", "kind": "static-path", "theorem_or_correspondence": "gen/C03_current.v: startup_ok startup = true no longer holds",
+                       "violation": "main.go no longer lists the nodes before constructing the allocator with that list and starting the informers afterwards",
+                       "facts": res.coverage["startup_facts"]})
 
 
 def replay(res, path):
